@@ -252,6 +252,42 @@ pub fn run(tier: &str) -> i32 {
         }
         rep.sub("cell-pairs", "two cells of the chart in different states (complete, only the first combo, all but the first combo, half/half, alternating): same-cell pairs and ordered pairs of different cells, partial before complete and complete before partial", cs.len() as u64, cs.len() as u64, thorough, json!({}));
     }
+    // the same contents built along histories with repeated combos (collect with duplicates, overlapping tokens)
+    {
+        use espada::hand_range::HandRange;
+        let mut n = 0u64;
+        for rp in RP::all() {
+            let combos = rp.combos();
+            let base: Vec<(Combo, f32)> = combos.iter().map(|c| (*c, 0.5f32)).collect();
+            let mut twice = base.clone();
+            twice.extend(base.iter().cloned());
+            let mut overwritten: Vec<(Combo, f32)> = combos.iter().map(|c| (*c, 1.0f32)).collect();
+            overwritten.extend(base.iter().cloned());
+            let mut last_twice = base.clone();
+            last_twice.push(*base.last().unwrap());
+            let text_twice = format!("{}:0.5,{}:0.5", rp.text(), rp.text());
+            let text_over = format!("{},{}:0.5", rp.text(), rp.text());
+            let text_combo_again = format!("{}:0.5,{}:0.5", rp.text(), combos[0].text());
+            for (how, build) in [("collect twice", Some(twice)), ("collect overwritten", Some(overwritten)), ("collect last combo twice", Some(last_twice)), ("parse twice", None), ("parse overwritten", None), ("parse rank pair then one of its combos", None)] {
+                n += 1;
+                let txt = match how { "parse twice" => text_twice.clone(), "parse overwritten" => text_over.clone(), _ => text_combo_again.clone() };
+                let r = catch(move || {
+                    let range: HandRange = match build {
+                        Some(items) => items.iter().map(|(c, w)| (c.card_pair(), *w)).collect(),
+                        None => txt.parse().unwrap(),
+                    };
+                    let rps: Vec<(RP, u32)> = range.rank_pairs().iter().map(|(k, w)| (rp_of(k), w.to_bits())).collect();
+                    let left = range.orphan_card_pairs().len();
+                    (rps, left, range.card_pairs().len())
+                });
+                let want = (vec![(rp, 0.5f32.to_bits())], 0usize, combos.len());
+                if r.as_ref().ok() != Some(&want) {
+                    rep.violation(Violation { key: format!("rank pair {} built by: {}", rp.text(), how), sub: "build-histories".into(), case: json!({"rank_pair": rp.text(), "how": how}), expected: json!("the complete rank pair is reported at 0.5 with no leftovers, however the range was built"), observed: json!(format!("{:?}", r)) });
+                }
+            }
+        }
+        rep.sub("build-histories", "every rank pair, complete at weight 0.5, built six ways that insert a combo more than once (collect with every combo twice, collect over an overwritten first pass, the last combo twice, the token twice, the token overwritten, the token followed by one of its combos): reported once, no leftovers", n, n, true, json!({}));
+    }
     // a few whole-range cases
     let mut extra = 0u64;
     for c in [Contents::new(), full.clone()] {
